@@ -15,7 +15,13 @@ def dataset(ds):
   rng = rng_for('ds', ds['seed'])
   return D.well_formed(rng, d=ds.get('d'), n_classes=ds.get('classes'),
                        variant=ds.get('variant', 'plain'),
-                       nmax=ds.get('nmax'), dmax=ds.get('dmax', 8))
+                       nmax=ds.get('nmax'), dmax=ds.get('dmax', 8),
+                       # unless the spec says otherwise the label alphabet
+                       # and the memory order vary with the dataset seed
+                       labels=ds.get('labels', ['range', 'sparse']
+                                     [ds['seed'] % 2]),
+                       order=ds.get('order', ['C', 'C', 'F']
+                                    [(ds['seed'] // 2) % 3]))
 
 
 def build(spec, ds=None, **kw):
@@ -52,5 +58,7 @@ def ds_specs(seed, pid, n, dmax=8, variants=('plain',), dmin=2):
     out.append({'seed': int(r.randint(0, 2**31 - 1)),
                 'd': int(dmin + (i + r.randint(0, 2)) % (dmax - dmin + 1)),
                 'classes': int(2 + (i // 2) % 3),
-                'variant': variants[i % len(variants)]})
+                'variant': variants[i % len(variants)],
+                'labels': ['range', 'sparse'][(i // 2) % 2],
+                'order': ['C', 'C', 'F'][i % 3]})
   return out
